@@ -378,7 +378,7 @@ Proof.
   apply (stR_sbind rch rch_trans).
   - destruct (0 <? _); [|apply ReRefl].
     assert (F2' : rch s2 (acked_counts_as_sent s2)).
-    { unfold acked_counts_as_sent. destruct (seq_gt _ _); [same_leaf | apply ReRefl]. }
+    { unfold acked_counts_as_sent. destruct (seq_gt _ _ && seq_lt _ _); [same_leaf | apply ReRefl]. }
     apply (stR_weaken rch rch_trans) with (s := acked_counts_as_sent s2); [exact F2'|].
     generalize (acked_counts_as_sent s2). intro s2'.
     destruct (truncate_front _ _) as [tx1 tr] eqn:Et.
